@@ -29,6 +29,10 @@ TOPOLOGIES = {
     # trough -> two-ball launcher -> playfield (the source may have to wait for the target's own eject to finish)
     "t8": {"machine": "balls_t8", "trough": "bd_trough", "trough_switches": ["s_trough1", "s_trough2", "s_trough3", "s_trough4"],
            "pf_switches": ["s_pf1", "s_pf2"], "locks": [], "manual": []},
+    # t1 with a jam switch (jam pulse, reorder pulse): a kicked ball may drop back onto the jam switch while the others are
+    # shaken off their switches
+    "t10": {"machine": "balls_t10", "trough": "bd_trough", "trough_switches": ["s_trough1", "s_trough2", "s_trough3", "s_trough4"],
+            "pf_switches": ["s_pf1", "s_pf2"], "locks": [], "manual": []},
     # Gottlieb style: outhole -> trough counted at its entrance (the last ball rests on the entrance switch and is
     # counted after entrance_switch_full_timeout) -> plunger lane
     "t9": {"machine": "balls_t9", "trough": "bd_trough", "drain": "bd_outhole", "trough_switches": ["s_trough_entry"],
@@ -95,6 +99,8 @@ def plan(ch, tier):
     patches = {"game": {"balls_per_game": ch.pick("bpg", [1, 2, 3])}}
     # reactive requests: another ball is requested a moment after some device kicked (while its ball is under way)
     chain = topo in ("t7", "t2", "t3", "t8")      # devices that feed another device which ejects onwards
+    if topo == "t10":
+        wk["p_eject_fail"] = ch.pick("p_eject_fail_jam", [0.3, 0.5, 0.1])
     react = {"on": ch.flag("react_add", 0.6 if chain else 0.3), "delay": ch.pick("react_delay", [0.2, 0.1, 0.5, 1.0]),
              "max": 1 + ch.choice("react_max", 3)}
     if chain and react["on"]:
@@ -393,7 +399,7 @@ def execute(ctx, plan, prop):
         ctx.state(plan["topo"], tuple(sorted((d.name, d.balls, d.state) for d in devices)), pf.balls, m.game is not None)
 
     for e in world.eject_log:
-        if e["outcome"] in ("fallback", "stuck"):
+        if e["outcome"] in ("fallback", "stuck", "shake"):
             ctx.probe("eject_failed_physically")
         if e["outcome"] in ("fallback", "stuck", "late"):
             ctx.probe({"fallback": "fallback", "stuck": "stuck", "late": "late_arrival"}[e["outcome"]])
@@ -502,7 +508,7 @@ def execute(ctx, plan, prop):
                  "manual plunger; world=%r" % (m.game.balls_in_play, world.summary()))
     # every physically failed eject was retried or reported
     for e in world.eject_log:
-        if e["outcome"] not in ("fallback", "stuck") or e["dev"] in broken:
+        if e["outcome"] not in ("fallback", "stuck", "shake") or e["dev"] in broken:
             continue
         retried = any(t > e["t"] and dv == e["dev"] for t, dv in world.coil_log)
         reported = any(t > e["t"] and dv == e["dev"] for t, dv in failed_events)
